@@ -988,24 +988,26 @@ func lemmaLastEncodePrefix(opts []Option, o Option, i int) {
 // The massive (pipeline) implementations are not under contract (C10, C11 are not applicable to this technique).
 //@ func gtree.treePipeline.outputProgrammably
 //@   requires ok: pipelineTreeOK(t, cfg) && root != nil && root.hierarchy == 1
-//@   modifies Node.brnch.value, Node.brnch.path, out, wfail, defaultGrowSpreaderSimple.w, defaultSpreaderSimple.w, counter.n, encTrace, encoders, spText, dryRoots, errSent, stageSpread, stageWriter, ctxCancelled, splSent, lnNodes, lnRootCount, lnRejected, splSharp, splCutOK, ctxDoneSeen, gcRecv, rcRecv, gcSent, errRecv
+//@   modifies Node.brnch.value, Node.brnch.path, out, wfail, defaultGrowSpreaderSimple.w, defaultSpreaderSimple.w, counter.n, encTrace, encoders, spText, dryRoots, errSent, stageSpread, stageWriter, ctxCancelled, splSent, lnNodes, lnRootCount, lnRejected, splSharp, splCutOK, ctxDoneSeen, gcRecv, rcRecv, rcSentOK, lnConsumed, gcSent, errRecv
 //@   ensures staged [C04]: cfg.encode >= encodeJSON && cfg.encode <= encodeTOML && !cfg.dryrun ==> stageSpread == t.spreader && stageWriter == w
 //@   ensures reported [C14]: result == nil ==> errRecv == old(errRecv)
 //@   ensures dryfs [C09]: fsOps == old(fsOps) && fsFailed == old(fsFailed)
 //@   carries rootStream: rootChan
 //@ closure gtree.treePipeline.outputProgrammably#1
 //@   requires nn: root != nil && root.hierarchy == 1
+//@   modifies rcSentOK
 //@ func gtree.treePipeline.walkProgrammably
 //@   requires ok: pipelineTreeOK(t, cfg) && root != nil && root.hierarchy == 1
-//@   modifies Node.brnch.value, Node.brnch.path, cbTrace, cbFailed, cbLastErr, cbAfterFail, errSent, ctxCancelled, splSent, lnNodes, lnRootCount, lnRejected, splSharp, splCutOK, ctxDoneSeen, gcRecv, rcRecv, gcSent, errRecv
+//@   modifies Node.brnch.value, Node.brnch.path, cbTrace, cbFailed, cbLastErr, cbAfterFail, errSent, ctxCancelled, splSent, lnNodes, lnRootCount, lnRejected, splSharp, splCutOK, ctxDoneSeen, gcRecv, rcRecv, rcSentOK, lnConsumed, gcSent, errRecv
 //@   ensures reported [C14]: result == nil ==> errRecv == old(errRecv)
 //@   param callback follows walkCallback
 //@   carries rootStream: rootChan
 //@ closure gtree.treePipeline.walkProgrammably#1
 //@   requires nn: root != nil && root.hierarchy == 1
+//@   modifies rcSentOK
 
 //@ contract fromRootOutput
-//@   modifies Node.brnch.value, Node.brnch.path, out, wfail, defaultGrowSpreaderSimple.w, defaultSpreaderSimple.w, counter.n, encTrace, encoders, lastConfig, spText, dryRoots, errSent, stageSpread, stageWriter, ctxCancelled, splSent, lnNodes, lnRootCount, lnRejected, splSharp, splCutOK, ctxDoneSeen, gcRecv, rcRecv, gcSent, errRecv
+//@   modifies Node.brnch.value, Node.brnch.path, out, wfail, defaultGrowSpreaderSimple.w, defaultSpreaderSimple.w, counter.n, encTrace, encoders, lastConfig, spText, dryRoots, errSent, stageSpread, stageWriter, ctxCancelled, splSent, lnNodes, lnRootCount, lnRejected, splSharp, splCutOK, ctxDoneSeen, gcRecv, rcRecv, rcSentOK, lnConsumed, gcSent, errRecv
 //@   ghostset lastConfig := cfg
 //@   ensures nilnode [C03]: root == nil ==> result == ErrNilNode && out == old(out) && wfail == old(wfail)
 //@   ensures notroot [C03]: root != nil && root.hierarchy != 1 ==> result == ErrNotRoot && out == old(out) && wfail == old(wfail)
@@ -1015,7 +1017,7 @@ func lemmaLastEncodePrefix(opts []Option, o Option, i int) {
 //@ contract fromRootWalk
 //@   param callback follows walkCallback
 //@   requires live: !cbFailed
-//@   modifies Node.brnch.value, Node.brnch.path, cbTrace, cbFailed, cbLastErr, cbAfterFail, counter.n, lastConfig, errSent, ctxCancelled, splSent, lnNodes, lnRootCount, lnRejected, splSharp, splCutOK, ctxDoneSeen, gcRecv, rcRecv, gcSent, errRecv
+//@   modifies Node.brnch.value, Node.brnch.path, cbTrace, cbFailed, cbLastErr, cbAfterFail, counter.n, lastConfig, errSent, ctxCancelled, splSent, lnNodes, lnRootCount, lnRejected, splSharp, splCutOK, ctxDoneSeen, gcRecv, rcRecv, rcSentOK, lnConsumed, gcSent, errRecv
 //@   ghostset lastConfig := cfg
 //@   ensures nilnode [C03]: root == nil ==> result == ErrNilNode && cbTrace == old(cbTrace)
 //@   ensures notroot [C03]: root != nil && root.hierarchy != 1 ==> result == ErrNotRoot && cbTrace == old(cbTrace)
@@ -1157,18 +1159,18 @@ func lemmaRawAllIsRenderAll(last, mid branchFormat, roots []*Node, i int) {
 
 //@ func gtree.treePipeline.output
 //@   requires ok: pipelineTreeOK(t, cfg)
-//@   modifies Node.children, Node.parent, Node.brnch.value, Node.brnch.path, list.List.view, list.Element.backOf, counter.n, bufio.Scanner.pos, bufio.Scanner.failed, markdown.Parser.isSharpRoot, markdown.Parser.spaces, markdown.Parser.sep, out, wfail, defaultSpreaderSimple.w, encTrace, encoders, lastForest, lnNodes, rsRoots, rsFailed, rsStopped, rsErr, gsRoots, gsFailed, gsStopped, gsErr, spRoots, spText, dryRoots, esFailed, errSent, stageSpread, stageWriter, ctxCancelled, splSent, lnRootCount, lnRejected, splSharp, splCutOK, ctxDoneSeen, gcRecv, rcRecv, gcSent, errRecv
+//@   modifies Node.children, Node.parent, Node.brnch.value, Node.brnch.path, list.List.view, list.Element.backOf, counter.n, bufio.Scanner.pos, bufio.Scanner.failed, markdown.Parser.isSharpRoot, markdown.Parser.spaces, markdown.Parser.sep, out, wfail, defaultSpreaderSimple.w, encTrace, encoders, lastForest, lnNodes, rsRoots, rsFailed, rsStopped, rsErr, gsRoots, gsFailed, gsStopped, gsErr, spRoots, spText, dryRoots, esFailed, errSent, stageSpread, stageWriter, ctxCancelled, splSent, lnRootCount, lnRejected, splSharp, splCutOK, ctxDoneSeen, gcRecv, rcRecv, rcSentOK, lnConsumed, gcSent, errRecv
 //@   ensures staged [C04]: cfg.encode >= encodeJSON && cfg.encode <= encodeTOML && !cfg.dryrun ==> stageSpread == t.spreader && stageWriter == w
 //@   ensures reported [C14]: result == nil ==> errRecv == old(errRecv)
 //@   ensures dryfs [C09]: fsOps == old(fsOps) && fsFailed == old(fsFailed)
 //@ func gtree.treePipeline.walk
 //@   requires ok: pipelineTreeOK(t, cfg)
-//@   modifies Node.children, Node.parent, Node.brnch.value, Node.brnch.path, list.List.view, list.Element.backOf, counter.n, bufio.Scanner.pos, bufio.Scanner.failed, markdown.Parser.isSharpRoot, markdown.Parser.spaces, markdown.Parser.sep, cbTrace, cbFailed, cbLastErr, cbAfterFail, lastForest, lnNodes, errSent, ctxCancelled, splSent, lnRootCount, lnRejected, splSharp, splCutOK, ctxDoneSeen, gcRecv, rcRecv, gcSent, errRecv
+//@   modifies Node.children, Node.parent, Node.brnch.value, Node.brnch.path, list.List.view, list.Element.backOf, counter.n, bufio.Scanner.pos, bufio.Scanner.failed, markdown.Parser.isSharpRoot, markdown.Parser.spaces, markdown.Parser.sep, cbTrace, cbFailed, cbLastErr, cbAfterFail, lastForest, lnNodes, errSent, ctxCancelled, splSent, lnRootCount, lnRejected, splSharp, splCutOK, ctxDoneSeen, gcRecv, rcRecv, rcSentOK, lnConsumed, gcSent, errRecv
 //@   ensures reported [C14]: result == nil ==> errRecv == old(errRecv)
 //@   param callback follows walkCallback
 
 //@ contract fromMarkdownOutput
-//@   modifies Node.children, Node.parent, Node.brnch.value, Node.brnch.path, list.List.view, list.Element.backOf, counter.n, bufio.Scanner.pos, bufio.Scanner.failed, markdown.Parser.isSharpRoot, markdown.Parser.spaces, markdown.Parser.sep, out, wfail, defaultSpreaderSimple.w, encTrace, encoders, libWriter, libFailed, libCalls, libReader, lastCtxLive, lastConfig, lastForest, lnNodes, rsRoots, rsFailed, rsStopped, rsErr, gsRoots, gsFailed, gsStopped, gsErr, spRoots, spText, dryRoots, esFailed, errSent, stageSpread, stageWriter, ctxCancelled, splSent, lnRootCount, lnRejected, splSharp, splCutOK, ctxDoneSeen, gcRecv, rcRecv, gcSent, errRecv
+//@   modifies Node.children, Node.parent, Node.brnch.value, Node.brnch.path, list.List.view, list.Element.backOf, counter.n, bufio.Scanner.pos, bufio.Scanner.failed, markdown.Parser.isSharpRoot, markdown.Parser.spaces, markdown.Parser.sep, out, wfail, defaultSpreaderSimple.w, encTrace, encoders, libWriter, libFailed, libCalls, libReader, lastCtxLive, lastConfig, lastForest, lnNodes, rsRoots, rsFailed, rsStopped, rsErr, gsRoots, gsFailed, gsStopped, gsErr, spRoots, spText, dryRoots, esFailed, errSent, stageSpread, stageWriter, ctxCancelled, splSent, lnRootCount, lnRejected, splSharp, splCutOK, ctxDoneSeen, gcRecv, rcRecv, rcSentOK, lnConsumed, gcSent, errRecv
 //@   ghostset lastConfig := cfg
 //@   ghostset libWriter := w
 //@   ghostset libFailed := old(libFailed) || result != nil
@@ -1183,7 +1185,7 @@ func lemmaRawAllIsRenderAll(last, mid branchFormat, roots []*Node, i int) {
 //@ contract fromMarkdownWalk
 //@   param callback follows walkCallback
 //@   requires live: !cbFailed
-//@   modifies Node.children, Node.parent, Node.brnch.value, Node.brnch.path, list.List.view, list.Element.backOf, counter.n, bufio.Scanner.pos, bufio.Scanner.failed, markdown.Parser.isSharpRoot, markdown.Parser.spaces, markdown.Parser.sep, cbTrace, cbFailed, cbLastErr, cbAfterFail, lastConfig, lastForest, lnNodes, errSent, ctxCancelled, splSent, lnRootCount, lnRejected, splSharp, splCutOK, ctxDoneSeen, gcRecv, rcRecv, gcSent, errRecv
+//@   modifies Node.children, Node.parent, Node.brnch.value, Node.brnch.path, list.List.view, list.Element.backOf, counter.n, bufio.Scanner.pos, bufio.Scanner.failed, markdown.Parser.isSharpRoot, markdown.Parser.spaces, markdown.Parser.sep, cbTrace, cbFailed, cbLastErr, cbAfterFail, lastConfig, lastForest, lnNodes, errSent, ctxCancelled, splSent, lnRootCount, lnRejected, splSharp, splCutOK, ctxDoneSeen, gcRecv, rcRecv, rcSentOK, lnConsumed, gcSent, errRecv
 //@   ghostset lastConfig := cfg
 //@   ensures walk [C05,C03,C12]: fresh(lastConfig) && (!lastConfig.massive ==> cbAfterFail == old(cbAfterFail) && (result == nil ==> !cbFailed && (allRoots(lastForest) && cbTrace == old(cbTrace) ++ specPreorderAll(lastForest, len(lastForest)))) && (cbFailed ==> result == cbLastErr && result != nil))
 //@ applies fromMarkdownWalk to gtree.WalkFromMarkdown, gtree.Walk
@@ -1497,19 +1499,20 @@ func fsExistsAt(p string) bool { _, err := os.Stat(p); return !os.IsNotExist(err
 
 //@ func gtree.treePipeline.mkdir
 //@   requires ok: pipelineTreeOK(t, cfg)
-//@   modifies Node.children, Node.parent, Node.brnch.value, Node.brnch.path, list.List.view, list.Element.backOf, counter.n, bufio.Scanner.pos, bufio.Scanner.failed, markdown.Parser.isSharpRoot, markdown.Parser.spaces, markdown.Parser.sep, fsOps, fsFailed, defaultGrowerSimple.enabledValidation, lastForest, lnNodes, errSent, mkSeen, ctxCancelled, splSent, lnRootCount, lnRejected, splSharp, splCutOK, ctxDoneSeen, gcRecv, rcRecv, gcSent, errRecv
+//@   modifies Node.children, Node.parent, Node.brnch.value, Node.brnch.path, list.List.view, list.Element.backOf, counter.n, bufio.Scanner.pos, bufio.Scanner.failed, markdown.Parser.isSharpRoot, markdown.Parser.spaces, markdown.Parser.sep, fsOps, fsFailed, defaultGrowerSimple.enabledValidation, lastForest, lnNodes, errSent, mkSeen, ctxCancelled, splSent, lnRootCount, lnRejected, splSharp, splCutOK, ctxDoneSeen, gcRecv, rcRecv, rcSentOK, lnConsumed, gcSent, errRecv
 //@   ensures reported [C14]: result == nil ==> errRecv == old(errRecv)
 //@ func gtree.treePipeline.mkdirProgrammably
 //@   requires ok: pipelineTreeOK(t, cfg) && root != nil && root.hierarchy == 1
-//@   modifies Node.brnch.value, Node.brnch.path, fsOps, fsFailed, defaultGrowerSimple.enabledValidation, out, wfail, counter.n, spText, dryRoots, errSent, mkSeen, ctxCancelled, splSent, lnNodes, lnRootCount, lnRejected, splSharp, splCutOK, ctxDoneSeen, gcRecv, rcRecv, gcSent, errRecv
+//@   modifies Node.brnch.value, Node.brnch.path, fsOps, fsFailed, defaultGrowerSimple.enabledValidation, out, wfail, counter.n, spText, dryRoots, errSent, mkSeen, ctxCancelled, splSent, lnNodes, lnRootCount, lnRejected, splSharp, splCutOK, ctxDoneSeen, gcRecv, rcRecv, rcSentOK, lnConsumed, gcSent, errRecv
 //@   ensures reported [C14]: result == nil ==> errRecv == old(errRecv)
 //@   ensures dryrun [C09]: cfg.dryrun ==> fsOps == old(fsOps) && fsFailed == old(fsFailed)
 //@   carries rootStream: rootChan
 //@ closure gtree.treePipeline.mkdirProgrammably#1
 //@   requires nn: root != nil && root.hierarchy == 1
+//@   modifies rcSentOK
 
 //@ contract fromMarkdownMkdir
-//@   modifies Node.children, Node.parent, Node.brnch.value, Node.brnch.path, list.List.view, list.Element.backOf, counter.n, bufio.Scanner.pos, bufio.Scanner.failed, markdown.Parser.isSharpRoot, markdown.Parser.spaces, markdown.Parser.sep, fsOps, fsFailed, defaultGrowerSimple.enabledValidation, libFailed, libCalls, libReader, lastCtxLive, lastConfig, lastForest, lnNodes, errSent, mkSeen, ctxCancelled, splSent, lnRootCount, lnRejected, splSharp, splCutOK, ctxDoneSeen, gcRecv, rcRecv, gcSent, errRecv
+//@   modifies Node.children, Node.parent, Node.brnch.value, Node.brnch.path, list.List.view, list.Element.backOf, counter.n, bufio.Scanner.pos, bufio.Scanner.failed, markdown.Parser.isSharpRoot, markdown.Parser.spaces, markdown.Parser.sep, fsOps, fsFailed, defaultGrowerSimple.enabledValidation, libFailed, libCalls, libReader, lastCtxLive, lastConfig, lastForest, lnNodes, errSent, mkSeen, ctxCancelled, splSent, lnRootCount, lnRejected, splSharp, splCutOK, ctxDoneSeen, gcRecv, rcRecv, rcSentOK, lnConsumed, gcSent, errRecv
 //@   ghostset lastConfig := cfg
 //@   ghostset libFailed := old(libFailed) || result != nil
 //@   ghostset libCalls := old(libCalls) + 1
@@ -1521,7 +1524,7 @@ func fsExistsAt(p string) bool { _, err := os.Stat(p); return !os.IsNotExist(err
 //@ applies fromMarkdownMkdir to gtree.MkdirFromMarkdown, gtree.Mkdir
 
 //@ contract fromRootMkdir
-//@   modifies Node.brnch.value, Node.brnch.path, fsOps, fsFailed, defaultGrowerSimple.enabledValidation, out, wfail, counter.n, lastConfig, spText, dryRoots, errSent, mkSeen, ctxCancelled, splSent, lnNodes, lnRootCount, lnRejected, splSharp, splCutOK, ctxDoneSeen, gcRecv, rcRecv, gcSent, errRecv
+//@   modifies Node.brnch.value, Node.brnch.path, fsOps, fsFailed, defaultGrowerSimple.enabledValidation, out, wfail, counter.n, lastConfig, spText, dryRoots, errSent, mkSeen, ctxCancelled, splSent, lnNodes, lnRootCount, lnRejected, splSharp, splCutOK, ctxDoneSeen, gcRecv, rcRecv, rcSentOK, lnConsumed, gcSent, errRecv
 //@   ghostset lastConfig := cfg
 //@   ensures nilnode [C03]: root == nil ==> result == ErrNilNode && fsOps == old(fsOps)
 //@   ensures notroot [C03]: root != nil && root.hierarchy != 1 ==> result == ErrNotRoot && fsOps == old(fsOps)
@@ -1684,20 +1687,21 @@ func specVerifyText(strict bool, extra, noExists []string) string {
 
 //@ func gtree.treePipeline.verify
 //@   requires ok: pipelineTreeOK(t, cfg)
-//@   modifies Node.children, Node.parent, Node.brnch.value, Node.brnch.path, list.List.view, list.Element.backOf, counter.n, bufio.Scanner.pos, bufio.Scanner.failed, markdown.Parser.isSharpRoot, markdown.Parser.spaces, markdown.Parser.sep, defaultGrowerSimple.enabledValidation, maps, lastForest, lnNodes, errSent, vfSeen, ctxCancelled, splSent, lnRootCount, lnRejected, splSharp, splCutOK, ctxDoneSeen, gcRecv, rcRecv, gcSent, errRecv
+//@   modifies Node.children, Node.parent, Node.brnch.value, Node.brnch.path, list.List.view, list.Element.backOf, counter.n, bufio.Scanner.pos, bufio.Scanner.failed, markdown.Parser.isSharpRoot, markdown.Parser.spaces, markdown.Parser.sep, defaultGrowerSimple.enabledValidation, maps, lastForest, lnNodes, errSent, vfSeen, ctxCancelled, splSent, lnRootCount, lnRejected, splSharp, splCutOK, ctxDoneSeen, gcRecv, rcRecv, rcSentOK, lnConsumed, gcSent, errRecv
 //@   ensures reported [C14]: result == nil ==> errRecv == old(errRecv)
 //@   ensures fsframe [C08]: fsOps == old(fsOps) && fsFailed == old(fsFailed)
 //@ func gtree.treePipeline.verifyProgrammably
 //@   requires ok: pipelineTreeOK(t, cfg) && root != nil && root.hierarchy == 1
-//@   modifies Node.brnch.value, Node.brnch.path, defaultGrowerSimple.enabledValidation, maps, errSent, vfSeen, ctxCancelled, splSent, lnNodes, lnRootCount, lnRejected, splSharp, splCutOK, ctxDoneSeen, gcRecv, rcRecv, gcSent, errRecv
+//@   modifies Node.brnch.value, Node.brnch.path, defaultGrowerSimple.enabledValidation, maps, errSent, vfSeen, ctxCancelled, splSent, lnNodes, lnRootCount, lnRejected, splSharp, splCutOK, ctxDoneSeen, gcRecv, rcRecv, rcSentOK, lnConsumed, gcSent, errRecv
 //@   ensures reported [C14]: result == nil ==> errRecv == old(errRecv)
 //@   ensures fsframe [C08]: fsOps == old(fsOps) && fsFailed == old(fsFailed)
 //@   carries rootStream: rootChan
 //@ closure gtree.treePipeline.verifyProgrammably#1
 //@   requires nn: root != nil && root.hierarchy == 1
+//@   modifies rcSentOK
 
 //@ contract fromMarkdownVerify
-//@   modifies Node.children, Node.parent, Node.brnch.value, Node.brnch.path, list.List.view, list.Element.backOf, counter.n, bufio.Scanner.pos, bufio.Scanner.failed, markdown.Parser.isSharpRoot, markdown.Parser.spaces, markdown.Parser.sep, defaultGrowerSimple.enabledValidation, maps, libFailed, libCalls, libReader, lastCtxLive, lastConfig, lastForest, lnNodes, errSent, vfSeen, ctxCancelled, splSent, lnRootCount, lnRejected, splSharp, splCutOK, ctxDoneSeen, gcRecv, rcRecv, gcSent, errRecv
+//@   modifies Node.children, Node.parent, Node.brnch.value, Node.brnch.path, list.List.view, list.Element.backOf, counter.n, bufio.Scanner.pos, bufio.Scanner.failed, markdown.Parser.isSharpRoot, markdown.Parser.spaces, markdown.Parser.sep, defaultGrowerSimple.enabledValidation, maps, libFailed, libCalls, libReader, lastCtxLive, lastConfig, lastForest, lnNodes, errSent, vfSeen, ctxCancelled, splSent, lnRootCount, lnRejected, splSharp, splCutOK, ctxDoneSeen, gcRecv, rcRecv, rcSentOK, lnConsumed, gcSent, errRecv
 //@   ghostset lastConfig := cfg
 //@   ghostset libFailed := old(libFailed) || result != nil
 //@   ghostset libCalls := old(libCalls) + 1
@@ -1708,7 +1712,7 @@ func specVerifyText(strict bool, extra, noExists []string) string {
 //@ applies fromMarkdownVerify to gtree.VerifyFromMarkdown, gtree.Verify
 
 //@ contract fromRootVerify
-//@   modifies Node.brnch.value, Node.brnch.path, defaultGrowerSimple.enabledValidation, maps, counter.n, lastConfig, errSent, vfSeen, ctxCancelled, splSent, lnNodes, lnRootCount, lnRejected, splSharp, splCutOK, ctxDoneSeen, gcRecv, rcRecv, gcSent, errRecv
+//@   modifies Node.brnch.value, Node.brnch.path, defaultGrowerSimple.enabledValidation, maps, counter.n, lastConfig, errSent, vfSeen, ctxCancelled, splSent, lnNodes, lnRootCount, lnRejected, splSharp, splCutOK, ctxDoneSeen, gcRecv, rcRecv, rcSentOK, lnConsumed, gcSent, errRecv
 //@   ensures nilnode [C03]: root == nil ==> result == ErrNilNode
 //@   ensures notroot [C03]: root != nil && root.hierarchy != 1 ==> result == ErrNotRoot
 //@   ensures fsframe [C08,C12]: fsOps == old(fsOps) && fsFailed == old(fsFailed)
